@@ -25,7 +25,7 @@ B = common.coq_bool
 PREAMBLE = ("From H2V Require Import Base.Tac Base.Bytes Model.StreamState Model.Dispatch.\n"
             "Local Open Scope N_scope.\n")
 
-PROFILES = ("mixed", "reset", "limits", "chaos", "legal", "race", "lastframe", "queue", "shutdown", "fuzz")
+PROFILES = ("mixed", "reset", "limits", "chaos", "legal", "race", "lastframe", "queue", "shutdown", "fuzz", "idspace")
 
 USER_ERR = {"unexpected frame type": 1, "inactive stream": 2, "rejected": 3, "stream ID overflowed": 4,
             "sending PUSH_PROMISE to peer who disabled server push": 5, "malformed headers": 6,
@@ -537,7 +537,8 @@ def coq_case(sc):
     push = sc["cfg"].get("enable_push")
     push_local = True if push is None else bool(push)
     fin = final_of(sc)
-    case = "((%s, %s, [%s], %s) : dispatch_case)" % (role, B(push_local), ";\n    ".join(items), opt(fin))
+    first = sc["cfg"].get("initial_stream_id") if role == "Client" else None
+    case = "((%s, (%s, %s, [%s], %s)) : dispatch_case_from)" % ("Some %d" % first if first else "None", role, B(push_local), ";\n    ".join(items), opt(fin))
     return case, hist, len(items), p
 
 
@@ -555,7 +556,7 @@ def correspond_dispatch(rep, tier, seed, profiles=PROFILES, per=None, steps=None
             scs.append(sc)
             for k, v in h.items():
                 hist[k] = hist.get(k, 0) + v
-    failing, err = common.coq_eval_failing("dispatch", PREAMBLE, "check_dispatch", cases, shard=10)
+    failing, err = common.coq_eval_failing("dispatch", PREAMBLE, "check_dispatch_from", cases, shard=10)
     if err:
         rep.violation("broken-correspondence", {"what": "coqc failed on generated dispatch cases", "log": err[-3000:]}, no_input=True)
     nontrivial = sum(1 for sc in scs if sum(1 for st in sc["trace"] for f in st["out"] if f["t"] in ("HEADERS", "DATA", "RST_STREAM", "PUSH_PROMISE")) >= 3)
@@ -586,7 +587,7 @@ def report_disagreements(rep, scs, failing, theorems=("C04_wire", "C09_wire", "C
     for i in failing[:3]:
         sc = scs[i]
         case, _, _, p = coq_case(sc)
-        rc, out = common.coq_eval_raw("dispatch_diag", PREAMBLE + "Definition c : dispatch_case := %s.\nEval vm_compute in (diag_dispatch c, diag_stop c).\n" % case)
+        rc, out = common.coq_eval_raw("dispatch_diag", PREAMBLE + "Definition c : dispatch_case_from := %s.\nEval vm_compute in (diag_dispatch_from c, diag_stop_from c).\n" % case)
         m = re.search(r"= \((\d+), (\d+)\)", out)
         code = int(m.group(1)) if m else None
         stop = int(m.group(2)) if m else None
@@ -611,7 +612,7 @@ def debug(seed, prof, idx, per=10, steps=110):
     got, _ = sendflow.gen_scenarios(seed, per, steps, prof)
     sc = [x for x in got if x.get("i") == idx][0]
     case, _, _, p = coq_case(sc)
-    rc, out = common.coq_eval_raw("dispatch_diag", PREAMBLE + "Definition c : dispatch_case := %s.\nEval vm_compute in (diag_dispatch c, diag_stop c).\n" % case)
+    rc, out = common.coq_eval_raw("dispatch_diag", PREAMBLE + "Definition c : dispatch_case_from := %s.\nEval vm_compute in (diag_dispatch_from c, diag_stop_from c).\n" % case)
     print(out[-200:])
     for i, e in enumerate(p.entries):
         print(i, e.label(), "   ", e.expect() if os.environ.get("V") else "")
@@ -704,7 +705,7 @@ def run_corpus_dispatch(rep):
         if case and nl:
             cases.append(case)
             names.append(fn)
-    failing, err = common.coq_eval_failing("dispatch_corpus", PREAMBLE, "check_dispatch", cases, shard=10)
+    failing, err = common.coq_eval_failing("dispatch_corpus", PREAMBLE, "check_dispatch_from", cases, shard=10)
     for i in failing:
         rep.violation("broken-correspondence", {"correspondence": "Model/Dispatch.v check_dispatch on corpus replay", "replay": os.path.join(d, names[i])}, no_input=True)
     if err:
